@@ -254,7 +254,7 @@ BUILDERS = {
     'pubkey-v5-unknown': lambda a, b: (6, b'\x05' + bytes(a % 50)),
     'pubkey-unknown-alg': lambda a, b: (6, b'\x04' + wire.u32(5) + bytes([100]) + bytes(a % 40)),
     'pubkey-elgamal': lambda a, b: b_elgamal(6 if a % 2 else 14, False, 0),
-    'seckey': lambda a, b: b_sec(keypool.ids()[a % len(keypool.ids())], 5 if b % 2 else 7, [0, 254, 255][a % 3], ['iterated', 'salted', 'simple'][b % 3], [7, 9, 3, 2, 13][a % 5], [2, 8, 10, 1][b % 4]),
+    'seckey': lambda a, b: b_sec(keypool.ids()[a % len(keypool.ids())], 5 if b % 2 else 7, [0, 254, 255, 'legacy'][a % 4], ['iterated', 'salted', 'simple'][b % 3], [7, 9, 3, 2, 13][a % 5], [2, 8, 10, 1][b % 4]),
     'seckey-elgamal': lambda a, b: b_elgamal(5 if a % 2 else 7, True, [0, 254, 255][b % 3]),
     # secret keys of algorithms PGPy does not know (reserved DH 21, private-use 100+): kept as opaque material
     'seckey-unknown-alg': lambda a, b: ([5, 7][a % 2], b'\x04' + wire.u32(1400000000 + b) + bytes([[21, 100, 105, 110][b % 4]]) + wire.mpi_encode((1 << 300) + a) + [b'\x00', b'\xfe\x07\x00\x02', b'\xff\x09\x03\x08saltSALT\x60'][a % 3] + bytes((a + i) & 0xFF for i in range(20 + b % 40))),
